@@ -141,7 +141,10 @@ def run_unit(copy, u, use_cache=True):
         if u.get("features"):
             cmd += ["--features", u["features"]]
         cmd += ["--", "--nocapture"]
-        env = dict(ENV, VERIF_NATIVE_DIR=work, CARGO_TARGET_DIR=TARGET_DIR, RUST_BACKTRACE="0")
+        # optimised, but with the checks of a debug build: arithmetic overflow panics (C03: "never overflow arithmetic")
+        # and debug_assert! (e.g. the linear locator's cross-check against the line index) stays in
+        env = dict(ENV, VERIF_NATIVE_DIR=work, CARGO_TARGET_DIR=TARGET_DIR, RUST_BACKTRACE="0",
+                   RUSTFLAGS="-C overflow-checks=on -C debug-assertions=on")
         r = subprocess.run(cmd, cwd=copy.root, env=env, capture_output=True, text=True, timeout=int(u.get("timeout", 1800)))
         if r.returncode != 0:
             tail = (r.stdout + r.stderr)[-1200:]
